@@ -38,7 +38,8 @@ check('C17', 'model_checking',
       'mixed-form command line; Excitation.idx, load.pulses, the SOURCE/LOAD listings and the geometry-table rows must name the predicted '
       'pulses, both forms must give bit-identical right-hand sides and (sampled) identical solved reports, invalid numbers must be diagnostics; '
       'a skin-effect / insulation load given for one object must cover every pulse with a half segment on it exactly once; exactly the named '
-      'pulses are driven, in any order of naming (a pulse on a grounded end first).',
+      'pulses are driven, in any order of naming (a pulse on a grounded end first); the load terms of the matrix of every multi-pulse '
+      'attachment form equal those of the same antenna with one single-pulse load per attached pulse.',
       'Trusted: TLC, concretiser, report parser. Wires only. Solved-report comparison on a seeded sample (10 % quick, 30 % thorough).',
       'TLC model checking of Topology.tla + spec-to-code replay through main()', 'DESIGN.md 4 C17')
 
@@ -72,14 +73,14 @@ check('C16', 'model_checking',
 check('C20', 'fault_enumeration',
       'spec/Cmdline.tla models main() as a staged pipeline (32 stages, same names as the Stage hook events); about 3170 fault sites (every '
       'comma-separated field of every option of four base command lines replaced by empty / x / 0 / -1 / 1e300 / nan / inf / 1e-300 / 99 / 1e29 / -1e29 / 1e-29 / 1_0 / 1e / 0.5, arity '
-      'changes, options given twice or omitted, contradictory and degenerate combinations) carry stage and outcome kind '
+      'changes, options given twice or omitted, contradictory and degenerate combinations incl. two degenerate fields of one option and output files) carry stage and outcome kind '
       '(spec/cmdline_table.json). TLC enumerates every single fault exhaustively and pairs of faults on different option groups by simulation, '
       'checks ExactlyOneOutcome / StopsAtFirst and dumps every scenario. Each scenario is run through the real main(); the verdict is taken '
       'from the OBSERVED outcome: complete finite report (parsed by the report grammar, no nan/inf token) | exactly one diagnostic line with '
       'return 23 | usage error; anything else (uncaught exception, NaN/inf printed, partial report, several lines with 23, no output) is a '
       'violation unless it is a recorded known finding (matched by the fault = option / field / value without its base command, exception type and '
-      'innermost function; two-fault scenarios are attributed to the fault that is recorded as failing on its own). After fixes F27-F40 no C20 '
-      'finding is left open. code->spec: the Stage events of every real run are validated as a behaviour of the pipeline '
+      'innermost function; two-fault scenarios are attributed to the fault that is recorded as failing on its own). After fixes F27-F44 one C20 '
+      'finding is left open (closed arc on the end of an earlier wire, the C12 finding seen from the command line). code->spec: the Stage events of every real run are validated as a behaviour of the pipeline '
       'by spec/TraceCmdline.tla in one batched TLC run (stage order, no diagnostic after the frequency loop was entered); thorough tier: three '
       'simultaneous faults.',
       'Trusted: TLC, report parser, in-process execution of main with captured stdout/stderr. The site table is learnt from the code at build '
@@ -92,7 +93,8 @@ check('C15', 'model_checking',
       '(objects of three kinds with explicit / automatic tags, taper, sources in both forms with unit and other voltages, lumped loads of the '
       'four kinds with every attachment form, tagged and global skin-effect loads). TLC checks Accepted, RoundTrip and FixPoint on the design '
       'variant and dumps every command line of the variant matching the code with its predicted verdict. Every command line is concretised '
-      '(chained and separate wire layouts, transformations, scaling, five media forms), built by the real main(), written by as_cmdline() '
+      '(chained and separate wire layouts, later wires with 7 or 3 segments so that repeated attachments can equal the pulse count, '
+      'transformations, scaling, five media forms), built by the real main(), written by as_cmdline() '
       '(plain and load_by_geo), read back by main(), and the two models are compared by projection; the re-written option file must equal '
       'the first; a sampled fraction is solved and the feed impedances compared (3e-4).',
       'Trusted: TLC, the concretiser and projection in harness/c15.py. Geometry transformations, scaling, media forms and numeric values are '
@@ -116,13 +118,14 @@ check('C18', 'model_checking',
       'batched TLC trace validation against BasicDialogue.tla + decode/compare/rebuild', 'DESIGN.md 4 C18, 3.6')
 
 check('C19', 'other',
-      'Structure: every report (API reports of four archetypes and five junction / grounded / multi-object structures with every option set, '
+      'Structure: every report (API reports of four archetypes and seven junction / grounded / multi-object structures with every option set, '
       'and frequency sweeps through main) is tokenised into block / row tokens and compared by TLC with Expected(M) of spec/ReportGrammar.tla, '
       'M being the abstract model projected from the real object (one geometry row per pulse in its object block, one source block per source, '
       'one load line per loaded pulse with degree+1 coefficient lines, current blocks with J/E lines and numbered rows, far-field rows, one E and '
       'one H block per near-field point, independent part once and dependent part per sweep step). Values: every number of every report is read '
       'back from the text and compared with the value it reports (5e-6 relative, +1e-6 absolute for fixed-point fields, %.3E fields 5e-4, %.2f '
-      'fields 0.005), magnitude / phase columns against real / imaginary, the source listing against the complex source voltage; synthetic currents, fields, loads and powers drive magnitudes 1e-30 .. '
+      'fields 0.005), magnitude / phase columns against real / imaginary, the source listing against the complex source voltage, the J / E line values against the '
+      'coefficient vectors spec/TopologyOn.tla derives for the structure (seven structures, two with a radiator grounded at end 1 that joins an earlier wire); synthetic currents, fields, loads and powers drive magnitudes 1e-30 .. '
       '1e12 of both signs with rounding-boundary mantissas through every field; the number formatter is swept over 43 decades.',
       'Level other: TLC decides the structure only; the numeric read-back is decided by the projection (harness/c19.py, harness/report.py).',
       'batched TLC comparison with ReportGrammar.tla + numeric read-back by the report parser', 'DESIGN.md 4 C19')
@@ -232,7 +235,8 @@ check('C05', 'exploration',
       "specification's order to the untransformed segmentation (1e-9) -- option form = coordinates; (ii) every whole-structure program is "
       'solved on a bent three-wire antenna with a lumped load: feed impedance and currents equal those of the untransformed antenna (f/s for '
       'scaling by s in 0.01..100), the gain moves rigidly with the antenna (free space: arbitrary multi-axis rotations and shifts of many '
-      'wavelengths; ideal ground: z-rotations and horizontal shifts, V and H separately), tolerance of the property with its condition rule.',
+      'wavelengths; ideal ground: z-rotations incl. quarter / half turns and 45 degrees, horizontal shifts, V and H separately, on two antennas '
+      'of which one has its grounded sloping wire on the diagonal x = y), tolerance of the property with its condition rule.',
       'Exploration level: order / scope by TLC; angles, shifts and factors are seeded; physics on one antenna per environment.',
       'TLC enumeration of transformation programs (Transform.tla) + replay: geometry equality and solved invariance', 'DESIGN.md 4 C05, 3.5')
 check('C13', 'exploration',
